@@ -440,6 +440,18 @@ Proof.
   - split; [apply IH; auto|]. intro E. apply H2. apply in_app_or in E. apply in_or_app. tauto.
 Qed.
 
+Lemma NoDup_app_remove_r' : forall (a b : list path), NoDup (a ++ b) -> NoDup a.
+Proof.
+  induction a as [|x a IH]; intros b H; [constructor|]. simpl in H. inversion H; subst.
+  constructor; [|eapply IH; eauto]. intro E. apply H2. apply in_or_app. now left.
+Qed.
+
+Lemma NoDup_app_disj : forall (a b : list path), NoDup (a ++ b) -> forall x, In x a -> In x b -> False.
+Proof.
+  induction a as [|y a IH]; intros b H x Ha Hb; [contradiction|]. simpl in H. inversion H; subst.
+  destruct Ha as [->|Ha]; [apply H2; apply in_or_app; now right|eapply IH; eauto].
+Qed.
+
 Theorem abort_ok : forall its used usedG F g,
   wf_abort used its = true -> G usedG F [] g -> incl usedG used ->
   exists g' usedG', checks g (abort_trace its) = Some g' /\ G usedG' F [] g'
@@ -473,6 +485,100 @@ Proof.
 Qed.
 
 (* ---------------------------------------------------------------- a whole history *)
+(* a publish that fails at call k < 4 and cleans up leaves the ghost as it was *)
+Lemma G_ext : forall used F M g g', G used F M g ->
+  (forall t, tmps g' t = None) -> st g' = st g -> refd g' = refd g -> G used F M g'.
+Proof.
+  intros used F M g g' H Ht Hs Hr. destruct H. constructor; rewrite ?Hs, ?Hr; auto.
+Qed.
+
+Lemma failed_ok : forall used F M g d n c k, G used F M g -> (k < 4)%nat ->
+  exists g', checks g (failed_of (publish_meta (P d n) c) (T d n) k) = Some g'
+    /\ G used F M g' /\ st g' PTR = st g PTR.
+Proof.
+  intros used F M g d n c k H Hk. pose proof (g_tmps _ _ _ _ H) as Ht.
+  unfold failed_of, publish_meta, gen_write_file. cbn [tmp_of dir_of].
+  destruct k as [|[|[|[|k]]]]; try lia; cbn [firstn app checks check]; rewrite ?Ht; cbn [checks check tmps st refd];
+    rewrite ?upd_t_same; cbn [checks check tmps st refd]; rewrite ?upd_t_same; cbn [checks check tmps st refd];
+    rewrite ?upd_t_same; cbn [checks check tmps st refd]; rewrite ?upd_t_same; cbn [checks check tmps st refd].
+  all: eexists; split; [reflexivity|]; split; [|reflexivity].
+  all: eapply G_ext; [exact H| |reflexivity|reflexivity].
+  all: intro t; cbn [tmps]; unfold upd_t; repeat (destruct (path_eqb t (T d n)); auto).
+Qed.
+
+Theorem fail_ok : forall its mk fl k used usedG F g,
+  wf_fail used its mk fl k = true -> G usedG F [] g -> incl usedG used ->
+  exists g' usedG', checks g (fail_trace its mk fl k) = Some g' /\ G usedG' F [] g'
+    /\ incl usedG' (names_of_fail its mk fl ++ used) /\ st g' PTR = st g PTR.
+Proof.
+  intros its mk fl k used usedG F g Hwf HG Hiu. unfold wf_fail in Hwf.
+  apply andb_prop in Hwf as [Hwf W7]. apply andb_prop in Hwf as [Hwf W6]. apply andb_prop in Hwf as [Hwf W5].
+  apply andb_prop in Hwf as [Hwf W4]. apply andb_prop in Hwf as [Hwf W3]. apply andb_prop in Hwf as [W1 W2].
+  apply Nat.ltb_lt in W7. apply nodup_b_spec in W2.
+  set (tail := pf_path mk :: match fl with None => [] | Some f => [pf_path f] end) in *.
+  assert (Hnames : names_of_fail its mk fl = (map mk_path its ++ map fl_path its) ++ tail) by reflexivity.
+  rewrite Hnames in *.
+  assert (Hnd1 : NoDup (map mk_path its ++ map fl_path its)) by (eapply NoDup_app_remove_r'; eauto).
+  assert (Hfresh : forall x, In x ((map mk_path its ++ map fl_path its) ++ tail) -> ~ In x usedG).
+  { intros x Hx Hu. apply Hiu in Hu. apply (forallb_In _ _ _ W3) in Hx. apply mem_In in Hu. rewrite Hu in Hx. discriminate. }
+  destruct (pub_pairs its usedG F [] g HG) as [g1 [C1 [G1 S1]]].
+  { intros it Hit. pose proof (forallb_In _ _ _ W4 Hit) as E. simpl in E. apply andb_prop in E as [E1 E2]. unfold no_refs in E1, E2.
+    repeat split.
+    - apply (forallb_In _ _ _ W1). apply in_or_app. left. apply in_or_app. left. now apply in_map.
+    - apply (forallb_In _ _ _ W1). apply in_or_app. left. apply in_or_app. right. now apply in_map.
+    - destruct (refs (pf_content (it_marker it))); [reflexivity|discriminate].
+    - destruct (refs (pf_content (it_file it))); [reflexivity|discriminate]. }
+  { now apply NoDup_inter. }
+  { intros x Hx. apply Hfresh. apply in_or_app. left. apply inter_perm_in in Hx. apply in_or_app. tauto. }
+  assert (Hmk_ok : name_ok (pf_path mk) = true).
+  { apply (forallb_In _ _ _ W1). apply in_or_app. right. now left. }
+  assert (Hmk_new : ~ In (pf_path mk) (rev (inter its) ++ usedG)).
+  { intro E. apply in_app_or in E as [E|E].
+    - apply in_rev in E. apply inter_perm_in in E.
+      eapply (NoDup_app_disj _ _ W2 (pf_path mk)); [apply in_or_app; tauto|now left].
+    - eapply Hfresh; [|exact E]. apply in_or_app. right. now left. }
+  destruct fl as [f|].
+  - (* marker published, data file's publish failed *)
+    destruct (pub_marker _ F _ g1 (pf_path mk) (pf_content mk) G1 Hmk_ok Hmk_new) as [g2 [C2 [G2 S2]]].
+    { unfold no_refs in W5. destruct (refs (pf_content mk)); [reflexivity|discriminate]. }
+    assert (Hf_ok : name_ok (pf_path f) = true).
+    { apply (forallb_In _ _ _ W1). apply in_or_app. right. right. now left. }
+    destruct (name_ok_spec _ Hf_ok) as [Hff _]. destruct (pf_path f) as [d n|] eqn:Ef; [|discriminate].
+    destruct (failed_ok _ F _ g2 d n (pf_content f) k G2 W7) as [g3 [C3 [G3 S3]]].
+    destruct (del_markers ((map fl_path its ++ map mk_path its) ++ [pf_path mk]) _ _ _ g3 G3) as [g4 [M4 [C4 [G4 [S4 _]]]]].
+    { intros m Hm. apply in_app_or in Hm as [Hm|[<-|[]]]; [|now left].
+      right. apply in_or_app. left. rewrite <- in_rev. apply inter_perm_in. apply in_app_or in Hm. tauto. }
+    { apply NoDup_app_swap. simpl. constructor.
+      - intro E. eapply (NoDup_app_disj _ _ W2 (pf_path mk)); [|now left]. apply in_app_or in E. apply in_or_app. tauto.
+      - now apply NoDup_app_swap. }
+    exists g4, (pf_path mk :: rev (inter its) ++ usedG). split; [|split; [|split]].
+    + unfold fail_trace. rewrite checks_app, C1, checks_app, checks_app, C2.
+      change (publish_data (pf_path f) (pf_content f)) with (publish_meta (pf_path f) (pf_content f)).
+      rewrite Ef. cbn [tmp_of]. rewrite C3.
+      rewrite !map_app, !map_map in C4. simpl in C4. rewrite <- app_assoc in C4. exact C4.
+    + eapply G_drop_marks; eauto.
+    + intros x [<-|Hx].
+      * apply in_or_app. left. apply in_or_app. right. now left.
+      * apply in_app_or in Hx as [Hx|Hx].
+        -- apply in_rev in Hx. apply inter_perm_in in Hx. apply in_or_app. left. apply in_or_app. left. apply in_or_app. tauto.
+        -- apply in_or_app. right. auto.
+    + congruence.
+  - (* the marker's publish failed *)
+    destruct (name_ok_spec _ Hmk_ok) as [Hmf _]. destruct (pf_path mk) as [d n|] eqn:Em; [|discriminate].
+    destruct (failed_ok _ F _ g1 d n (pf_content mk) k G1 W7) as [g3 [C3 [G3 S3]]].
+    destruct (del_markers (map fl_path its ++ map mk_path its) _ _ _ g3 G3) as [g4 [M4 [C4 [G4 [S4 _]]]]].
+    { intros m Hm. apply in_or_app. left. rewrite <- in_rev. apply inter_perm_in. apply in_app_or in Hm. tauto. }
+    { now apply NoDup_app_swap. }
+    exists g4, (rev (inter its) ++ usedG). split; [|split; [|split]].
+    + unfold fail_trace. rewrite checks_app, C1, checks_app, Em. cbn [tmp_of]. rewrite C3.
+      rewrite app_nil_r. rewrite map_app, !map_map in C4. exact C4.
+    + eapply G_drop_marks; eauto.
+    + intros x Hx. apply in_app_or in Hx as [Hx|Hx].
+      * apply in_rev in Hx. apply inter_perm_in in Hx. apply in_or_app. left. apply in_or_app. left. apply in_or_app. tauto.
+      * apply in_or_app. right. auto.
+    + congruence.
+Qed.
+
 Fixpoint used_after (used : list path) (ops : list op) : list path :=
   match ops with [] => used | o :: ops' => used_after (names_of_op o ++ used) ops' end.
 Fixpoint avail_after (avail : list path) (ops : list op) : list path :=
@@ -494,7 +600,7 @@ Theorem history_ok : forall ops used avail usedG F g,
 Proof.
   induction ops as [|o ops IH]; intros used avail usedG F g Hwf HG Hiu Hia.
   - exists g, usedG, F. simpl. repeat (split; auto); try apply incl_refl.
-  - simpl in Hwf. apply andb_prop in Hwf as [W1 W2]. destruct o as [c|its].
+  - simpl in Hwf. apply andb_prop in Hwf as [W1 W2]. destruct o as [c|its|its mk fl k].
     + destruct (commit_ok c used avail usedG F g W1 HG Hiu Hia)
         as [g1 [g2 [u2 [F2 [M1 [C1 [C2 [G1 [G2 [S1 [S2 [I1 [I2 [I3 [I4 I5]]]]]]]]]]]]]]].
       destruct (IH _ _ u2 F2 g2 W2 G2 I1 I2) as [g3 [u3 [F3 [C3 [G3 [J1 [J2 [J3 J4]]]]]]]].
@@ -508,6 +614,11 @@ Proof.
       * apply in_or_app. left. apply in_or_app. now right.
       * apply I5 in Hx. apply in_app_or in Hx as [Hx|Hx]; apply in_or_app; [left; apply in_or_app; now left|now right].
     + destruct (abort_ok its used usedG F g W1 HG Hiu) as [g2 [u2 [C2 [G2 [I1 S2]]]]].
+      simpl in W2. destruct (IH _ _ u2 F g2 W2 G2 I1 Hia) as [g3 [u3 [F3 [C3 [G3 [J1 [J2 [J3 J4]]]]]]]].
+      exists g3, u3, F3. split.
+      { cbn [trace_of flat_map trace_of_op]. rewrite checks_app, C2. exact C3. }
+      split; [exact G3|]. split; [exact J1|]. split; [exact J2|]. split; [exact J3|exact J4].
+    + destruct (fail_ok its mk fl k used usedG F g W1 HG Hiu) as [g2 [u2 [C2 [G2 [I1 S2]]]]].
       simpl in W2. destruct (IH _ _ u2 F g2 W2 G2 I1 Hia) as [g3 [u3 [F3 [C3 [G3 [J1 [J2 [J3 J4]]]]]]]].
       exists g3, u3, F3. split.
       { cbn [trace_of flat_map trace_of_op]. rewrite checks_app, C2. exact C3. }
@@ -725,7 +836,7 @@ Proof.
   intros A Pr l. induction l as [|x l IH]; intros [|k] H; simpl; try constructor; inversion H; subst; auto.
 Qed.
 
-Definition is_abort (o : op) : bool := match o with OAbort _ => true | OCommit _ => false end.
+Definition is_abort (o : op) : bool := match o with OCommit _ => false | _ => true end.
 
 Lemma publish_no_ptr : forall p c, p <> PTR -> Forall no_ptr_rename (publish_meta p c).
 Proof.
@@ -750,14 +861,40 @@ Proof.
   - apply Forall_forall. intros c Hc. apply in_map_iff in Hc as [it [<- _]]. intros t E. discriminate.
 Qed.
 
+Lemma failed_no_ptr : forall prog tmp k, Forall no_ptr_rename prog -> Forall no_ptr_rename (failed_of prog tmp k).
+Proof.
+  intros prog tmp k H. unfold failed_of. apply Forall_app. split; [now apply Forall_firstn'|].
+  destruct k; repeat constructor. intros t E. discriminate.
+Qed.
+
+Lemma fail_no_ptr : forall its mk fl k, forallb name_ok (names_of_fail its mk fl) = true ->
+  Forall no_ptr_rename (fail_trace its mk fl k).
+Proof.
+  intros its mk fl k H. unfold names_of_fail in H. rewrite forallb_app in H. apply andb_prop in H as [H1 H2].
+  pose proof (abort_no_ptr its H1) as Ha. unfold abort_trace in Ha.
+  apply Forall_app in Ha as [A1 A2]. apply Forall_app in A2 as [A2 A3].
+  simpl in H2. apply andb_prop in H2 as [Hm H2]. apply name_ok_spec in Hm as [_ Hm].
+  unfold fail_trace. apply Forall_app. split; [exact A1|]. apply Forall_app. split.
+  - destruct fl as [f|].
+    + simpl in H2. apply andb_prop in H2 as [Hf _]. apply name_ok_spec in Hf as [_ Hf].
+      apply Forall_app. split; [now apply publish_no_ptr|]. apply failed_no_ptr.
+      change (publish_data (pf_path f) (pf_content f)) with (publish_meta (pf_path f) (pf_content f)). now apply publish_no_ptr.
+    + apply failed_no_ptr. now apply publish_no_ptr.
+  - apply Forall_app. split; [exact A2|]. apply Forall_app. split; [exact A3|].
+    destruct fl; repeat constructor. intros t E. discriminate.
+Qed.
+
 Lemma aborts_no_ptr : forall rest used avail, forallb is_abort rest = true -> wf_from used avail rest = true ->
   Forall no_ptr_rename (trace_of rest).
 Proof.
   induction rest as [|o rest IH]; intros used avail Ha Hwf; simpl in *; [constructor|].
-  apply andb_prop in Ha as [A1 A2]. apply andb_prop in Hwf as [W1 W2]. destruct o as [c|its]; [discriminate|].
-  apply Forall_app. split; [|eapply IH; eauto].
-  apply abort_no_ptr. simpl in W1. unfold wf_abort in W1.
-  apply andb_prop in W1 as [W1 _]. apply andb_prop in W1 as [W1 _]. apply andb_prop in W1 as [W1 _]. exact W1.
+  apply andb_prop in Ha as [A1 A2]. apply andb_prop in Hwf as [W1 W2]. destruct o as [c|its|its mk fl k]; [discriminate| |].
+  - apply Forall_app. split; [|eapply IH; eauto].
+    apply abort_no_ptr. simpl in W1. unfold wf_abort in W1.
+    apply andb_prop in W1 as [W1 _]. apply andb_prop in W1 as [W1 _]. apply andb_prop in W1 as [W1 _]. exact W1.
+  - apply Forall_app. split; [|eapply IH; eauto].
+    apply fail_no_ptr. simpl in W1. unfold wf_fail in W1.
+    repeat (apply andb_prop in W1 as [W1 _]). exact W1.
 Qed.
 
 Theorem acked_durable_aborts : forall ops c rest, forallb is_abort rest = true ->
